@@ -63,6 +63,9 @@ func NewBase(g *gitx.Git, dir string, h *gen.History) (*Base, error) {
 		return nil, fmt.Errorf("repack: %s", r)
 	}
 	os.RemoveAll(filepath.Join(dir, ".git", "hooks"))
+	if err := MakeNonRacy(g, dir); err != nil {
+		return nil, err
+	}
 	return b, nil
 }
 
@@ -525,30 +528,56 @@ func CopyTree(src, dst string) error {
 	return nil
 }
 
+// setWorktreeMTimes sets the mtime of every regular file of the worktree (not .git) to t.
+func setWorktreeMTimes(dir string, t time.Time) {
+	filepath.Walk(dir, func(p string, fi os.FileInfo, err error) error {
+		if err != nil {
+			return nil
+		}
+		if fi.IsDir() && filepath.Base(p) == ".git" && filepath.Dir(p) == dir {
+			return filepath.SkipDir
+		}
+		if fi.Mode().IsRegular() {
+			os.Chtimes(p, t, t)
+		}
+		return nil
+	})
+}
+
 // MakeRacy turns every tracked regular file of the worktree at dir into a racily-clean index entry:
-// file mtime == recorded entry mtime == mtime of the index file (no sleeping: timestamps are set).
-// A later same-size edit that restores the mtime can then only be noticed by content comparison.
+// file mtime == recorded entry mtime == mtime of the index file == T, where T lies 50 s before the moment
+// of the call (no sleeping, no dependence on timestamp ticks: all three are set explicitly). A later
+// same-size edit that restores the mtime can then only be noticed by content comparison, and every later
+// rewrite of the index is strictly newer than T.
 func MakeRacy(g *gitx.Git, dir string) error {
 	idx := filepath.Join(dir, ".git", "index")
 	fi, err := os.Stat(idx)
 	if err != nil {
 		return err
 	}
-	t := fi.ModTime().Truncate(time.Second)
-	r := g.Run(dir, "ls-files", "-z")
-	if !r.OK() {
-		return fmt.Errorf("ls-files: %s", r)
-	}
-	for _, p := range strings.Split(strings.TrimRight(string(r.Out), "\x00"), "\x00") {
-		full := filepath.Join(dir, filepath.FromSlash(p))
-		if lf, err := os.Lstat(full); err == nil && lf.Mode().IsRegular() {
-			os.Chtimes(full, t, t)
-		}
-	}
+	t := fi.ModTime().Truncate(time.Second).Add(-50 * time.Second)
+	setWorktreeMTimes(dir, t)
 	if r := g.Run(dir, "update-index", "-q", "--really-refresh"); !r.OK() {
-		return fmt.Errorf("update-index --refresh: %s", r)
+		return fmt.Errorf("update-index --really-refresh: %s", r)
 	}
 	return os.Chtimes(idx, t, t)
+}
+
+// MakeNonRacy makes every index entry of the worktree at dir definitely NOT racily clean: file mtime ==
+// recorded entry mtime == T0, 100 s older than the index file. Without it, files that git happened to write
+// in the same kernel timestamp tick as the index are racily clean by accident, which would make the
+// behaviour of later same-size edits depend on machine speed.
+func MakeNonRacy(g *gitx.Git, dir string) error {
+	idx := filepath.Join(dir, ".git", "index")
+	fi, err := os.Stat(idx)
+	if err != nil {
+		return err
+	}
+	setWorktreeMTimes(dir, fi.ModTime().Truncate(time.Second).Add(-100*time.Second))
+	if r := g.Run(dir, "update-index", "-q", "--really-refresh"); !r.OK() {
+		return fmt.Errorf("update-index --really-refresh: %s", r)
+	}
+	return nil
 }
 
 // CompareFile checks an on-disk path against a generated tree entry: type, bytes, exec bit, symlink
